@@ -138,7 +138,13 @@ class EventsDomain:
         return self._walk_expr(st, e)
 
     def refine(self, st: EvState, test: ast.expr, truth: bool):
-        return st.guard(unparse(test), truth)
+        st = st.guard(unparse(test), truth)
+        on_refine = getattr(self, "on_refine", None)
+        if on_refine is not None:
+            evs = on_refine(unparse(test), truth)
+            if evs:
+                st = st.add(*evs)
+        return st
 
     # ---- statements
     def at_stmt(self, s, st) -> None:
